@@ -34,6 +34,8 @@ type topo struct {
 	Pipes   []pipeCfg           `json:"pipelines"`
 	Exts    []string            `json:"extensions"`
 	ExtDeps map[string][]string `json:"extension_dependencies,omitempty"`
+	// RtMode documents how the routing connector (type "rt") selects destinations in this run
+	RtMode int `json:"routing_connector_mode"`
 	// Rnd documents the support matrix drawn for connector type "rnd" (rows: from logs, traces, metrics, profiles)
 	Rnd string `json:"rnd_connector_matrix,omitempty"`
 	// reference verdict
@@ -42,7 +44,7 @@ type topo struct {
 
 func isConn(id string) bool {
 	switch typeOf(id) {
-	case "fwd", "conv", "l2m", "forward", "asym", "rnd":
+	case "fwd", "conv", "l2m", "forward", "asym", "rnd", "rt":
 		return true
 	}
 	return false
@@ -71,7 +73,8 @@ func genTopo(tp *simkit.Tape, small bool) topo {
 	recvPool := []string{"rcv/1", "rcv/2", "shr/1"}
 	procPool := []string{"proc/1", "proc/2", "ropr/1"}
 	expPool := []string{"exp/1", "exp/2", "mexp/1"}
-	connPool := []string{"fwd/1", "conv/1", "conv/2", "l2m/1", "forward/1", "asym/1", "rnd/1", "rnd/2"}
+	connPool := []string{"fwd/1", "conv/1", "conv/2", "l2m/1", "forward/1", "asym/1", "rnd/1", "rnd/2", "rt/1", "rt/1"}
+	rtMode = tp.Draw(7)
 	// the support matrix of connector type "rnd" in this run: every cell drawn on its own (about 2 in 3 supported)
 	bits := tp.Draw(1 << 16)
 	bits2 := tp.Draw(1 << 16)
@@ -145,6 +148,7 @@ func genTopo(tp *simkit.Tape, small bool) topo {
 		}
 		t.Rnd += " "
 	}
+	t.RtMode = rtMode
 	t.Invalid = t.validate()
 	return t
 }
@@ -259,6 +263,22 @@ func (t *topo) routes(recv, sig string) []delivery {
 			// of signal `to` that list it as receiver
 			for _, to := range allSignals {
 				if !connSupports(typeOf(e), p.Sig, to) {
+					continue
+				}
+				if typeOf(e) == "rt" {
+					// the routing connector sends to the groups of routeSelection over its attached pipelines sorted by id
+					var att []pipeCfg
+					for _, q := range t.Pipes {
+						if q.Sig == to && contains(q.Recv, e) {
+							att = append(att, q)
+						}
+					}
+					sort.Slice(att, func(i, j int) bool { return att[i].Name < att[j].Name })
+					for _, grp := range routeSelection(rtMode, len(att)) {
+						for _, k := range grp {
+							walk(att[k], trail+">"+e+"["+p.Sig+"->"+to+"]")
+						}
+					}
 					continue
 				}
 				for _, q := range t.Pipes {
@@ -574,7 +594,7 @@ func kindOfKey(k string) string {
 }
 
 var svcReal = []string{"service.New / Start / Shutdown", "service/internal/graph (node creation, edges, topological order, capabilities and fan-out nodes)", "service/internal/builders", "service/extensions (dependency order)", "internal/fanoutconsumer", "internal/sharedcomponent", "service/internal/status reporter", "service telemetry (logs off, metrics level none)"}
-var svcStub = []string{"leaf components: instrumented stub receivers, processors (mutating / read-only), exporters, connectors (forwarding, all-pairs converting, logs->metrics only, an asymmetric several-pairs matrix, a matrix drawn cell by cell per run) and extensions, created through real factories"}
+var svcStub = []string{"leaf components: instrumented stub receivers, processors (mutating / read-only), exporters, connectors (forwarding, all-pairs converting, logs->metrics only, an asymmetric several-pairs matrix, a matrix drawn cell by cell per run, a routing connector that selects destinations through the router API in one of seven ways) and extensions, created through real factories"}
 
 var HarnessC09 = simkit.Harness{
 	Prop: "C09", Name: "svc/c09", Run: runC09, StepTimeout: 20e9, Real: svcReal, Stub: svcStub, HashInsensitive: true,
